@@ -122,6 +122,7 @@ func runC15(c *Ctx) {
 	ruleSecretTaint(c, "R15.1")
 	ruleSecretFiles(c, "R15.3")
 	ruleNoFileQuotingErrors(c, "R15.4")
+	ruleShareDatabaseCopiesOwnerOnly(c, "R15.5")
 }
 
 func ruleSecretTypesAtSinks(c *Ctx, rule string) {
@@ -458,4 +459,122 @@ func ruleNoFileQuotingErrors(c *Ctx, rule string) {
 		}
 	}
 	c.Ok(rule, "no decoding error of the key material quotes the decoded file", "-", bad == 0, fmt.Sprintf("%d functions scanned", n))
+}
+
+// R15.5: the DKG database holds the key share of every beacon of the daemon. Wherever its content is streamed out
+// (bbolt Tx.WriteTo / Copy / CopyFile on that database), the destination is a file made by the owner-only helper.
+// A copy made with os.Create is readable by every local user.
+func ruleShareDatabaseCopiesOwnerOnly(c *Ctx, rule string) {
+	c.ranRules[rule] = true
+	isDump := func(ci ssa.CallInstruction) bool {
+		f := staticCallee(ci)
+		if f == nil || f.Pkg == nil || f.Pkg.Pkg.Path() != bboltPath {
+			return false
+		}
+		switch f.Name() {
+		case "WriteTo", "Copy", "CopyFile":
+			return f.Signature.Recv() != nil
+		}
+		return false
+	}
+	var ownerOnly func(v ssa.Value, fn *ssa.Function, d int) (bool, string)
+	ownerOnly = func(v ssa.Value, fn *ssa.Function, d int) (bool, string) {
+		if d > 5 {
+			return false, "too deep"
+		}
+		v = canonValue(v)
+		if mi, ok := v.(*ssa.MakeInterface); ok {
+			v = canonValue(mi.X)
+		}
+		switch x := v.(type) {
+		case *ssa.Parameter:
+			pf := x.Parent()
+			idx := -1
+			for i, p := range pf.Params {
+				if p == x {
+					idx = i
+				}
+			}
+			callers := 0
+			for _, e := range c.P.Callers(pf) {
+				if e.Site == nil {
+					continue
+				}
+				args := callArgs(e.Site)
+				if idx >= len(args) {
+					continue
+				}
+				callers++
+				if ok, why := ownerOnly(args[idx], e.Caller.Func, d+1); !ok {
+					return false, why + " (in " + fnShort(e.Caller.Func) + ")"
+				}
+			}
+			return true, fmt.Sprintf("%d caller(s) pass an owner-only file", callers)
+		case *ssa.FreeVar:
+			// bound in the enclosing function
+			if b := boundValue(x); b != nil {
+				return ownerOnly(b, x.Parent().Parent(), d+1)
+			}
+		}
+		os := Origins(v)
+		secure := hasOrigin(os, func(o Origin) bool {
+			return o.Kind == "call" && strings.HasSuffix(o.Name, "internal/fs.CreateSecureFile")
+		})
+		other := ""
+		for _, o := range os {
+			if o.Kind == "call" && !strings.HasSuffix(o.Name, "internal/fs.CreateSecureFile") {
+				other = o.Name
+			}
+		}
+		if secure && other == "" {
+			return true, "made by fs.CreateSecureFile"
+		}
+		return false, "the destination comes from " + strings.Join(originStrings(os), ",")
+	}
+	n := 0
+	for _, root := range c.P.SubjectFns() {
+		if root.Parent() != nil {
+			continue
+		}
+		pk := fnPkgPath(root)
+		if !(pk == modPath+"/internal/dkg" || isControlFn(root)) {
+			continue
+		}
+		for _, f := range withClosures(root) {
+			for _, ci := range callsIn(f, isDump) {
+				n++
+				args := ci.Common().Args
+				dst := args[len(args)-1]
+				if staticCallee(ci).Name() == "CopyFile" {
+					c.Ok(rule, fnShort(f)+" copies the share database", shortPos(c.P, ci), false, "Tx.CopyFile creates the destination itself, with the mode it is given: use the owner-only helper and WriteTo")
+					continue
+				}
+				ok, why := ownerOnly(dst, f, 0)
+				c.Ok(rule, fnShort(f)+" streams the share database only into an owner-only file", shortPos(c.P, ci), ok, why, why)
+			}
+		}
+	}
+	// none on the pinned tree: the controls keep the rule honest
+	c.Floor(rule, "copies of the share database examined (controls included)", n, 1)
+}
+
+// boundValue: the value bound to free variable fv where its closure is made.
+func boundValue(fv *ssa.FreeVar) ssa.Value {
+	f := fv.Parent()
+	if f == nil || f.Parent() == nil {
+		return nil
+	}
+	var out ssa.Value
+	for _, g := range withClosures(f.Parent()) {
+		forEachInstr(g, func(_ *ssa.BasicBlock, _ int, in ssa.Instruction) {
+			if mc, ok := in.(*ssa.MakeClosure); ok && mc.Fn == ssa.Value(f) {
+				for i, v := range f.FreeVars {
+					if v == fv && i < len(mc.Bindings) {
+						out = mc.Bindings[i]
+					}
+				}
+			}
+		})
+	}
+	return out
 }
